@@ -2,6 +2,7 @@
 import sys
 
 from sa import report, rules_repr as RR2, rules_registry as RR, rules_order as RO
+from sa import rules_extra as RX
 
 
 def run(ctx, repo):
@@ -23,7 +24,8 @@ def run(ctx, repo):
         ('unsafe', RR.UNSAFE_LOADERS, RR.CORE_TAGS | {None} | RR.FULL_EXTRA, RR.UNSAFE_MULTI)])
     RR2.r_alias_key(ctx, repo)
     RO.r_construct_cache(ctx, repo)
-
+    RX.r_newobj_form(ctx, repo)
+    RX.r_dict_state_direct(ctx, repo)
 
 if __name__ == '__main__':
     sys.exit(report.main('C17', 'other', run))
